@@ -34,7 +34,7 @@ def plan(tier):
 
 
 def required_regimes(tier):
-    return (c03.required_regimes(tier) - {'variant:N=1', 'variant:C=2'}) | {'odd_extended_output'}
+    return (c03.required_regimes(tier) - {'variant:N=1', 'variant:C=2', 'variant:no_grad', 'variant:inference_mode'}) | {'odd_extended_output', 'single_images'}
 
 
 def run(item):
@@ -87,6 +87,20 @@ def run(item):
                 d['err_ref'] = err_ref
                 res.violation('perfect_reconstruction', cfg, d, tags)
         res['ophashes'].append(common.sha(cfg))
+        # single images (batch of one): the zero image, a constant image and one impulse - values whose sub-bands are exactly zero
+        import torch
+        for nm, img in (('zero', np.zeros((1, 1, H, W))), ('constant', np.ones((1, 1, H, W))), ('impulse', X[P // 2:P // 2 + 1])):
+            try:
+                a_, b_ = dtc.impl_forward(b, q, img, J)
+                r1 = dtc.impl_inverse(b, q, a_, b_).numpy()
+                res['impl_calls'] += 2
+                res['evals'] += 1
+                if tuple(r1.shape[2:]) != (dtc.even(H), dtc.even(W)) or common.maxabs(r1[:, :, :H, :W] - img) > common.TOL:
+                    res.violation('perfect_reconstruction', dict(cfg, single_image=nm), {'kind': 'value_or_shape', 'observed_shape': list(r1.shape[2:]),
+                                                                                         'expected_shape': [dtc.even(H), dtc.even(W)]}, tags)
+            except Exception as e:
+                res.violation('perfect_reconstruction', dict(cfg, single_image=nm), {'kind': 'raise', 'exc': repr(e)[:200]}, tags)
+        res.regime('single_images')
         if (H, W, J) in ((5, 6, 2), (7, 10, 3)):
             res.sample({'config': cfg, 'impulses': P, 'reconstruction_shape': list(R.shape[2:])})
     return res
